@@ -415,7 +415,7 @@ def _symbolic_for(interp, s, frame, state, space):
         if resolved:
             postv = _subst_val(postv, resolved)
         prev = hfn(idx)
-        summary_heap[sid] = _summarise_array(sid, shape, dt, idx, prev, postv, iz, lo, hi, hv_consts, hv_funcs, pre_heap)
+        summary_heap[sid] = _summarise_array(sid, shape, dt, idx, prev, postv, iz, lo, hi, hv_consts, hv_funcs, pre_heap, interp.loop_opts)
     for sid in other_touched:
         if merged and pre_heap[sid].kind != "file":
             raise zero_fork
@@ -631,8 +631,13 @@ def _instantiate(summ, k, iz, lo, pre):
     raise EngineError(kind)
 
 
-def _summarise_array(sid, shape, dt, idx, prev, postv, iz, lo, hi, hv_consts, hv_funcs, pre_heap):
-    """closed form for the content of an array cell after k iterations"""
+def _summarise_array(sid, shape, dt, idx, prev, postv, iz, lo, hi, hv_consts, hv_funcs, pre_heap, opts=None):
+    """closed form for the content of an array cell after k iterations.
+    opts (Unit.loop_opts): "cond_acc": "sigma-ite" -> a conditional accumulation A[g] += d(i) at a loop-invariant position g
+    gets the closed form pre + Σ_t ite(idx == g, d(t), 0) (the Σ-nesting then mirrors the loop nest at every level) instead
+    of the default ite(idx == g, pre + Σ_t d(t), pre) (which later stores into the same array can be decomposed against).
+    Both forms are checked by the same loop-init / loop-step obligations."""
+    sigma_ite = (opts or {}).get("cond_acc") == "sigma-ite"
     pre_fn = pre_heap[sid].data
     meta = pre_heap[sid].meta
     idz = [x.t for x in idx]
@@ -669,7 +674,7 @@ def _summarise_array(sid, shape, dt, idx, prev, postv, iz, lo, hi, hv_consts, hv
                 def at(k):
                     def fn(ix, k=k):
                         pairs = [(a, sv.znum(b)) for a, b in zip(idz, ix)]
-                        if cond_has_i:
+                        if cond_has_i or sigma_ite:
                             return sv.add(pre_fn(ix), Sum(lo, k, lambda t: ite(sv.wrap(z3.simplify(z3.substitute(cond, *(pairs + [(iz, sv.znum(t))])))),
                                                                                    lambda: _subst_val(dlt, pairs + [(iz, sv.znum(t))]), 0)))
                         c = sv.wrap(z3.simplify(z3.substitute(cond, *pairs))) if pairs else sv.wrap(z3.simplify(cond))
@@ -699,6 +704,18 @@ def _summarise_array(sid, shape, dt, idx, prev, postv, iz, lo, hi, hv_consts, hv
                                     v = _subst_val(v, list(zip(holes, _terms_of(pre_fn(ix)))))
                                 return v
                             return ite(sv.wrap(z3.simplify(c)), newv, lambda: pre_fn(ix))
+                        return Content("arr", A._memo(fn), meta)
+                    return at
+                if not holes and not _mentions(z3.simplify(cond), iz):
+                    # (2c) store into a loop-invariant position: A[g] = e(i), g independent of i -> the element keeps the
+                    #      value of the last iteration (last-value form of an array element); checked by loop-step / loop-init
+                    def at(k):
+                        def fn(ix, k=k):
+                            pairs = [(a, sv.znum(b)) for a, b in zip(idz, ix)]
+                            c = z3.And(z3.substitute(cond, *pairs), sv.znum(k) > sv.znum(lo))
+                            return ite(sv.wrap(z3.simplify(c)),
+                                       lambda: _subst_val(_subst_val(val, [(iz, sv.znum(A.simp(sv.sub(k, 1))))]), pairs),
+                                       lambda: pre_fn(ix))
                         return Content("arr", A._memo(fn), meta)
                     return at
     import os
